@@ -25,6 +25,7 @@ def run(pid, tier):
     S.free_running(chk, col, bindir, tier)
     S.stray_wake(chk, col, bindir, tier)
     S.faults(chk, col, bindir, tier)
+    S.perturbed(chk, col, bindir, tier)
     S.big_batches(chk, col, bindir, tier)
     # --- B2 at algorithm level: the free-running thread lives are behaviours of the model
     M.alg_validate(chk, col, cap=400 if tier == "quick" else 3000)
